@@ -37,7 +37,7 @@ INSTANCE_CAP_S = 300
 
 def instances(tier, seed):
     out = []
-    names = ['two_indep', 'nested', 'nested3', 'incompat', 'dv', 'dv_linked', 'sel_linked', 'sel_forced_linked', 'conn_cond', 'conn_dv', 'conn_opt_src']
+    names = ['two_indep', 'nested', 'nested3', 'incompat', 'dv', 'dv_linked', 'sel_linked', 'sel_forced_linked', 'dv_or_existence', 'conn_cond', 'conn_dv', 'conn_opt_src']
     if tier == 'thorough':
         names = list(dsg_pool.TEMPLATES)
     for name in names:
